@@ -228,9 +228,9 @@ SPEC = {
                  exhaustive={'space': 'all edge sets of partitions 4x5, 5x4, 5x5 (3.56e7 graphs) vs Kuhn reference'}),
         Workload('duplicates-exhaustive', duplicates_exhaustive, quick=len(TINY), thorough=len(TINY),
                  exhaustive={'space': 'all ordered edge lists with repetitions of length <= nu*nv+1 for every shape with nu*nv <= 4'}),
-        Workload('duplicate-lengths', duplicate_lengths_case, quick=1500, thorough=40000),
-        Workload('random', random_case, quick=600, thorough=20000),
-        Workload('insitu', insitu_case, quick=60, thorough=1500),
+        Workload('duplicate-lengths', duplicate_lengths_case, quick=1500, thorough=200000),
+        Workload('random', random_case, quick=600, thorough=100000),
+        Workload('insitu', insitu_case, quick=60, thorough=6000),
     ],
     'shards': {'quick': 4, 'thorough': 16},
     'watchdog_s': {'quick': 600, 'thorough': 7200},
